@@ -22,7 +22,7 @@ CHECKS = {
                       "choice, wake choice, spurious futex returns and weak-CAS failures of every step are free variables. Queries per "
                       "configuration: two live guards, data race (happens-before), all-parked deadlock, reachable panic, try_lock failing "
                       "without having seen the lock held; plus 'all threads finish' as vacuity witness."),
-                note=M_NOTE + " Quick: 2 threads K=20..24 (four program mixes) and 3 threads K=20; thorough: up to K=40 / 4 threads."),
+                note=M_NOTE + " Quick: 2 threads K=26..30 (four program mixes) and 3 threads K=24; thorough: up to K=40 / 4 threads K=22 (one happens-before query at K=30 instead of 36)."),
     "C02": dict(engine="M", technique=M_TECH, design_ref="§4 C02",
                 text=("Bounded model checking over schedules, as C01, for RwLock: the MIR of read/write/try_read/try_write, read_contended, "
                       "write_contended, spin loops, read_unlock/write_unlock, wake_writer_or_readers, wake_writer (futex wrappers inlined "
@@ -114,7 +114,7 @@ CHECKS = {
                       "incl. the wrap, symbolic pending counts): L symbolic steps of application and kernel actions with ghost sequence "
                       "stamps prove exactly-once, in-order consumption/reaping and no early slot reuse. An induction step over ring "
                       "states within the size bound, not a proof."),
-                note=K_NOTE + " Source hook `verif-hooks` (constructor only). Ring sizes 1,2,4 (8 in thorough), 3-4 steps (5-6 thorough). "
+                note=K_NOTE + " Source hook `verif-hooks` (constructor only). Ring sizes 1,2,4; 3-4 steps (6 steps in thorough, 38 min; ring size 8 gave no verdict in 57 min and is not registered). "
                      "One known finding (completion slot released before the caller reads it) is excluded from the main harnesses and "
                      "checked separately."),
     "C09": dict(engine="K", technique=K_TECH, design_ref="§4 C09",
